@@ -175,6 +175,14 @@ def run(cfg, fault_at=None, resume_from=None, file_path=None, keep_points=False,
     except KeyboardInterrupt as e:
         out.exception = ("KeyboardInterrupt", str(e))
         smp = a.sampler
+    except Exception as e:  # anything else escaping from aspire: reported by the checks as a verdict
+        from env import exc_site
+        from mc.explorer import HarnessError
+
+        if isinstance(e, HarnessError):
+            raise
+        out.exception = (type(e).__name__, exc_site(e), str(e)[:200])
+        smp = a.sampler
     out.sampler = smp
     out.history = snapshot_history(smp.history) if smp is not None else None
     out.n_calls = mon.n_calls
